@@ -566,7 +566,12 @@ namespace occa {
                                      operatorType::comma      |
                                      operatorType::semicolon);
       if (pos == 1) {
-        tokenContext[1]->printError("Expected an expression");
+        // There might not be a token after the operator
+        if (tokenContext[1]) {
+          tokenContext[1]->printError("Expected an expression");
+        } else {
+          tokenContext.printErrorAtEnd("Expected an expression");
+        }
         success = false;
       }
       if (!success) {
@@ -590,7 +595,12 @@ namespace occa {
       int pos = declarationNextCheck(operatorType::comma |
                                      operatorType::semicolon);
       if (pos == 1) {
-        tokenContext[1]->printError("Expected an expression");
+        // There might not be a token after the operator
+        if (tokenContext[1]) {
+          tokenContext[1]->printError("Expected an expression");
+        } else {
+          tokenContext.printErrorAtEnd("Expected an expression");
+        }
         success = false;
       }
       if (!success) {
